@@ -14,7 +14,7 @@ def run(c):
     if c.replay:
         harness(c, 1, replay_ops=c.replay.get("replay_ops") or [])
     else:
-        harness(c, 12000 if c.thorough else 1200)
+        harness(c, 30000 if c.thorough else 2500)
 
     def search():
         c.seed += 1000
